@@ -14,10 +14,10 @@ import (
 func init() { register("C14", false, checkC14) }
 
 func checkC14(c *Ctx) {
-	c.Rule("C14.R1", "the line is the subject and the polygon the clipping operand of a CLIPLINE Construct; every line of a MultiLineString becomes a contour (full range, identity order)")
-	c.Rule("C14.R2", "each returned piece drops exactly the one trailing vertex that the clipper-result converter appends (strip matches close), for every piece")
+	c.Rule("C14.R1", "model evaluation with the external clipper replaced by a recorder: LineString.Clip and MultiLineString.Clip hand Construct the CLIPLINE operation with the line(s) as subject — every line a contour, vertices in order — and the polygon's rings as clipping operand")
+	c.Rule("C14.R2", "model evaluation, same runs: each returned piece is the clipper's contour without the one closing vertex the result converter appends, for every piece, in order")
 	c.Rule("C14.R3", "in CLIPLINE mode the external clipper does not add the subject's closing segment (last→first) to the sweep")
-	c.Rule("C14.R5", "the clipping helper Clip goes through converts every contour of the subject and every polygon of the clipping operand, each ring and vertex at its own index (no member of either operand is skipped), and closes result rings with exactly one vertex")
+	c.Rule("C14.R5", "model evaluation of the clipping helpers Clip goes through (shared with C01): every contour of the subject and every polygon of the clipping operand is converted, each ring and vertex at its own index, and result rings are closed with exactly one vertex")
 	c.Rule("C14.R4", "Clip hands every line to the clipper: a conditional return before the clipper call, or a skipped member, is allowed only under a condition implying that the closed bounding boxes of the line and of the polygon share no point (!Overlaps), and such a return yields an empty result")
 	info := c.P.Pkg("geom").TypesInfo
 	m := newClipModel(c)
